@@ -1,5 +1,6 @@
 import Rare.Proofs.C11
 import Rare.Proofs.F64Arith
+import Rare.Proofs.F64Parse
 /-!
 Helper lemmas for the float-valued C11 theorems: the typed-argument machinery of
 `Rare/Proofs/C11.lean` for an arbitrary parser, the run-time equations of the float builders of
@@ -230,5 +231,20 @@ theorem foldl_add_exact : ∀ (xs : List F64) (ns : List Int) (acc : F64) (a : I
       exact foldl_add_exact xs ns _ _ (F64.add_exact_int h h1 hs.1) h2 hs.2
   | [], _ :: _, _, _, _, hall, _ => by cases hall
   | _ :: _, [], _, _, _, hall, _ => by cases hall
+
+/-- Arguments that are integer spellings (`strconv.Atoi` accepts them) with `|nᵢ| ≤ 2^53` parse as
+    floats with exactly those values. -/
+theorem ints_parse_as_floats (c : Ctx) : ∀ (as : List Arg) (ns : List Int),
+    as.map (fun a => atoi (a.val c)) = ns.map some → (∀ m ∈ ns, m.natAbs ≤ 9007199254740992) →
+    ∃ xs : List F64, as.map (fun a => Float.parseF (a.val c)) = xs.map some ∧
+      All2 (fun x n => x.toRat? = some ((n : Int) : Rat)) xs ns
+  | [], [], _, _ => ⟨[], rfl, All2.nil⟩
+  | [], _ :: _, h, _ => by simp at h
+  | _ :: _, [], h, _ => by simp at h
+  | a :: as, n :: ns, h, hs => by
+    simp only [List.map_cons, List.cons.injEq] at h
+    obtain ⟨y, hy, hv⟩ := F64.parseFloat_of_atoi_small h.1 (hs n (by simp))
+    obtain ⟨xs, hx, hall⟩ := ints_parse_as_floats c as ns h.2 (fun m hm => hs m (by simp [hm]))
+    exact ⟨y :: xs, by simp only [List.map_cons, Float.parseF, hy]; rw [← hx]; rfl, All2.cons hv hall⟩
 
 end Rare.C11
